@@ -7,12 +7,7 @@ from rules.psc import sym, strip
 
 META = {
     'title': 'Tokenisation and literals are faithful to the text',
-    'explanation': 'Structural clauses read off the syntax tree of the lexer and of parse_string_expression, cross-checked with MIR: '
-                   'two-character operators are tested before their prefixes and consume exactly two characters (set of tokens '
-                   'returned under a peek test = set of tokens that get the extra bump), the keyword table is the documented one and '
-                   'is applied to the whole identifier slice, identifier/whitespace classes, token text is sliced only at offsets '
-                   'produced by bump(), the escape flag of the string scanner has parity (4-cell truth table), the decoder is a single '
-                   'left-to-right pass over the same escape set, and the end-of-input sentinel is not a token the lexer can produce.',
+    'explanation': 'Clauses read off the MIR of the lexer by constant propagation with the first two input characters held constant (a finite decision table: which token, how many characters consumed) and off the scan predicates as truth tables, plus structural rules on the string decoder: two-character operators give their own token and consume exactly two characters, no other second character changes or joins a one-character token, the keyword table is the documented one and is applied to the whole identifier slice, identifier/number/string/comment scan predicates, the skipped set is exactly Pattern_White_Space, token text is sliced only at offsets produced by bump(), the escape flag of the string scanner has parity (4-cell truth table of one loop iteration), the decoder is a single left-to-right pass over the same escape set with the documented values, and the end-of-input sentinel is not a token the lexer can produce.',
     'not_decided': ['token-stream equality for all inputs as an input-output relation', "Unicode classification (char::is_alphabetic) is std's"],
 }
 
